@@ -262,9 +262,11 @@ MANIFEST = dict(
     category="proof",
     technique="Lean 4 theorems about the equality model (Props.__eq__ with its validate fall-through) + `==` correspondence + "
               "equality-law search on rebuilds and single-parameter variants",
-    text="Props/C15.lean states reflexivity/symmetry of the model's schema equality under NoUniversalAtEdge and NoNaNValue and "
-         "that `schema == value` is exactly 'the value validates' (per statement as proved; see evidence); tie: the boolean result "
-         "of == compared between model and code on pairs of generated schemas, rebuilds and variants; search: reflexive / "
-         "symmetric / transitive / != / verdict agreement / schema==value on the real code.",
+    text="Props/C15.lean: the model's schema equality is reflexive and symmetric (pyEq_refl, pyEq_symm) and `schema == "
+         "value` is exactly 'the value validates' (pyEqValue_iff); Props/C15Verdicts.lean: equal schemas give the same "
+         "verdict and the same errors on every value (pyEq_same_verdicts, pyEq_same_validation) and equality is transitive "
+         "(pyEq_trans, pyEq_trans_strong). Tie: the boolean result of == compared between model and code on pairs of "
+         "generated schemas, rebuilds and variants; search: reflexive / symmetric / transitive / != / verdict agreement / "
+         "schema==value on the real code.",
     note="Partial: the full statement is false of the code (K8: schema.list([schema.any, ...]) == schema.list([schema.any, "
          "schema.any]); K6: schema.float(nan) != itself). Trusted: Lean kernel + standard axioms, hand model (sampling tie), codec.")
